@@ -14,6 +14,7 @@ from __future__ import annotations
 import json
 import os
 import random
+import re
 import shutil
 import sys
 
@@ -77,7 +78,10 @@ def gen_dir(rng, name, depth, counter, maxdepth):
         counter[0] += 1
         d.plain_dirs.append(("shared_assets", [f"s{counter[0]}.css"]))  # the name the project-level copy_subdir uses, in several directories
     own = [p[0] for p in d.plain_dirs if p[0] != "shared_assets"]
-    if own and rng.random() < 0.6:
+    d.copy_off = False
+    if rng.random() < 0.15:
+        d.copy_off = True  # an empty `copy_subdir:` entry: nothing is copied for this section (not even what the project-level option names)
+    elif own and rng.random() < 0.6:
         d.copy_subdir = own if rng.random() < 0.7 else [p[0] for p in d.plain_dirs]
         if rng.random() < 0.35:
             # an entry that does not exist in this directory costs a warning, not the entries after it
@@ -87,6 +91,14 @@ def gen_dir(rng, name, depth, counter, maxdepth):
         titled = [p[0] for p in d.pages if p[1]]
         if titled:
             d.page_copy[rng.choice(titled)] = own[0]
+    # at the top level: a directory with an index.md that is also named in copy_subdir - it is copied and it is a sub-tree
+    d.both = None
+    if depth == 0 and rng.random() < 0.3:
+        withidx = [x.name for x in d.dirs if x.has_index and x.index_title]
+        if withidx:
+            d.both = rng.choice(withidx)
+            d.copy_subdir = list(d.copy_subdir) + [d.both]
+            d.copy_off = False
     # ordering
     cands = [p[0] for p in d.pages if p[1]] + [x.name for x in d.dirs if x.has_index and x.index_title]
     if cands and rng.random() < 0.5:
@@ -119,6 +131,8 @@ def write_dir(d: D, path, rng, entity_links):
                 meta += [f"ordered_subpage: {d.ordered[0]}"] + [f"    {n}" for n in d.ordered[1:]]
         for c in d.copy_subdir:
             meta.append(f"copy_subdir: {c}")
+        if getattr(d, "copy_off", False):
+            meta.append("copy_subdir:")
         if not meta:
             meta = ["author: nobody"]
         body = [f"Index of {d.name}.", ""]
@@ -132,8 +146,8 @@ def write_dir(d: D, path, rng, entity_links):
             body.append(f"[file {f}]({f})")
         if d.depth > 0:
             body.append(f"[top]({up}index.html) [top via alias](|page|/index.html) [home](|url|/index.html)")
-        if d.copy_subdir:
-            first = [c for c in d.copy_subdir if c != "no_such_directory"][0]
+        if [c for c in d.copy_subdir if c in [p[0] for p in d.plain_dirs]]:
+            first = [c for c in d.copy_subdir if c in [p[0] for p in d.plain_dirs]][0]
             body.append(f"[asset]({first}/{[p for p in d.plain_dirs if p[0] == first][0][1][0]})")
         body.append(entity_links)
         open(os.path.join(path, "index.md"), "w", encoding=ENC["name"]).write("\n".join(meta) + "\n\n" + "\n\n".join(body) + "\n")
@@ -182,7 +196,13 @@ def expected(d: D, rel, proj_copy):
                     files.add(os.path.join(rel, name, f))
     for f in d.files:
         files.add(os.path.join(rel, f))
-    copy = d.copy_subdir or proj_copy
+    # what the index page asks for, plus the project-level entries wherever a page of this directory has no copy_subdir of its own
+    # (an empty entry on the index page switches it off for that page only)
+    if getattr(d, "both", None):
+        cdirs.add(os.path.join(rel, d.both))  # (its raw files are there as well)
+    copy = list(d.copy_subdir)
+    if (not d.copy_subdir and not getattr(d, "copy_off", False)) or any(title and fn not in d.page_copy for fn, title in d.pages):
+        copy += [c for c in proj_copy if c not in copy]
     for c in copy:
         for name, fl in d.plain_dirs:
             if name == c:
@@ -283,6 +303,15 @@ def case(seed):
             if not os.path.exists(dst) or open(dst, "rb").read() != open(src, "rb").read():
                 in_copy = any(f.startswith(c + os.sep) for c in cdirs)
                 viol.append({"kf": {"kind": "file_not_copied_next_to_page", "in_copy_subdir": in_copy}, "w": {"seed": seed, "file": f, "exists": os.path.exists(dst)}})
+        # the page tree mirrors the page directory: nothing but the pages, the copied files and the copied directories
+        for dp, dn, fn in os.walk(os.path.join(out, "page")):
+            for f in fn:
+                relf = os.path.relpath(os.path.join(dp, f), os.path.join(out, "page"))
+                if relf in pages or relf in files or any(relf.startswith(c + os.sep) for c in cdirs):
+                    continue
+                kf = {"kind": "unexpected_file_in_page_tree", "what": "markdown source" if relf.endswith(".md") else ("hidden or backup file" if os.path.basename(relf).startswith(".") or relf.endswith("~") else "other")}
+                if not any(v["kf"] == kf for v in viol):
+                    viol.append({"kf": kf, "w": {"seed": seed, "file": relf}})
         # hidden/backup files must not become pages or be copied as pages
         for p in got_pages:
             if os.path.basename(p).startswith(".") or p.endswith("~.html"):
